@@ -27,7 +27,7 @@ pub static DEF: PropDef = PropDef {
     level: "exploration",
     total: |t| t.pick(64, 2400),
     run,
-    rule: "one listening server and 1..8 (quick) / 1..32 (thorough) clients over sockets, TCP, IPv4, optional ARP and one link: each client issues 1..40 writes (sizes 1, 5, MSS-1, MSS, MSS+1, 4000, 70000; back-to-back or spaced by simulated sleeps) through Socket::send or TcpStream::write; the server reads each connection with recv(n)/read_exact(n)/read() using n from {1,3,4,7,100,1460,65536}, eagerly or after a late start; MTU in {100,576,1500,65535}; latency jitter 0..5 ms; H4 plans dropping <=3 consecutive frames per direction and duplicating <=2; executed on the current_thread runtime with paused clock and on the multi_thread runtime with 2, 4 or 16 workers (content checks only). Every written byte encodes (connection id, stream offset) so loss, duplication, reordering and cross-talk are told apart; every read records (n asked, bytes got). Datagram sockets: each datagram must arrive intact or not at all, at the connected peer only. Non-trivial = >=2 writes in flight at once and >=1 partial read; multi-thread runs additionally count distinct arrival-order fingerprints.",
+    rule: "one listening server and 1..8 (quick) / 1..32 (thorough) clients - in one paused scenario in 24 a crowd of 130..220 clients that have all connected and written before the server's first accept() - over sockets, TCP, IPv4, optional ARP and one link: each client issues 1..40 writes (sizes 1, 5, MSS-1, MSS, MSS+1, 4000, 70000; back-to-back or spaced by simulated sleeps) through Socket::send or TcpStream::write; the server reads each connection with recv(n)/read_exact(n)/read() using n from {1,3,4,7,100,1460,65536}, eagerly or after a late start; MTU in {100,576,1500,65535}; latency jitter 0..5 ms; H4 plans dropping <=3 consecutive frames per direction and duplicating <=2; executed on the current_thread runtime with paused clock and on the multi_thread runtime with 2, 4 or 16 workers (content checks only). Every written byte encodes (connection id, stream offset) so loss, duplication, reordering and cross-talk are told apart; every read records (n asked, bytes got). Datagram sockets: each datagram must arrive intact or not at all, at the connected peer only. Non-trivial = >=2 writes in flight at once and >=1 partial read; multi-thread runs additionally count distinct arrival-order fingerprints.",
     assumptions: &[
         "bounded progress: the run must finish before the simulated timeout of 120 s (loss-free duration is well below 1 s)",
         "multi-thread runs judge content and order only; a wall-clock watchdog firing is inconclusive",
@@ -74,7 +74,11 @@ enum Rt {
 fn stream_scenario(env: &Env, k: u64, case: u64, rng: &mut rand::rngs::SmallRng, d: &mut Delta, rt: Rt) {
     d.evaluations += 1;
     let multi = rt != Rt::Paused;
-    let n_clients = if multi { rng.gen_range(1..=4usize) } else { rng.gen_range(1..=env.tier.pick(8usize, 32)) };
+    // crowd: far more clients than any listen backlog one would think of, all connected and written before the
+    // server calls accept() for the first time
+    let crowd = !multi && rng.chance(1, 24);
+    let n_clients = if crowd { rng.gen_range(130..=220usize) } else if multi { rng.gen_range(1..=4usize) } else { rng.gen_range(1..=env.tier.pick(8usize, 32)) };
+    let late_accept_ms: u64 = if crowd { 3000 } else if !multi && rng.chance(1, 10) { *rng.pick(&[10u64, 300]) } else { 0 };
     let mtu = *rng.pick(&[100u16, 576, 1500, 65535]);
     let mss = mtu as usize - 50;
     let with_arp = rng.chance(1, 2);
@@ -94,12 +98,12 @@ fn stream_scenario(env: &Env, k: u64, case: u64, rng: &mut rand::rngs::SmallRng,
     let slow_reader_probe = !multi && rng.chance(1, 8);
     let late_reader_ms = if slow_reader_probe { 4000 } else { late_reader_ms };
     for id in 0..n_clients as u32 {
-        let nw = if slow_reader_probe && id == 0 { rng.gen_range(260..=500usize) } else { rng.gen_range(1..=40usize) };
+        let nw = if slow_reader_probe && id == 0 { rng.gen_range(260..=500usize) } else if crowd { rng.gen_range(1..=2usize) } else { rng.gen_range(1..=40usize) };
         let spaced = rng.chance(1, 3) || (slow_reader_probe && id == 0);
         let mut writes = vec![];
         let mut gaps = vec![];
         for _ in 0..nw {
-            let sz = if slow_reader_probe && id == 0 { 5 } else { *rng.pick(&[1usize, 5, 5, 6, mss.saturating_sub(1).max(1), mss, mss + 1, 4000, 70000]) };
+            let sz = if slow_reader_probe && id == 0 { 5 } else if crowd { rng.gen_range(1..=6usize) } else { *rng.pick(&[1usize, 5, 5, 6, mss.saturating_sub(1).max(1), mss, mss + 1, 4000, 70000]) };
             let sz = sz.min(budget.max(1));
             budget = budget.saturating_sub(sz);
             writes.push(sz);
@@ -107,10 +111,13 @@ fn stream_scenario(env: &Env, k: u64, case: u64, rng: &mut rand::rngs::SmallRng,
         }
         plans.push(ConnPlan { id, writes, gaps, use_stream_api: rng.chance(1, 2) });
     }
+    if crowd {
+        d.tally("crowd_runs", 1);
+    }
     let read_api_name = ["recv", "read_exact", "read"][read_api];
     let desc = json!({
         "kind": "stream", "runtime": format!("{rt:?}"), "clients": n_clients, "mtu": mtu, "arp": with_arp, "jitter_ms": jitter,
-        "read_sizes": read_sizes, "read_api": read_api_name, "late_reader_ms": late_reader_ms, "slow_reader_probe": slow_reader_probe, "reader_pause_ms": reader_pause_ms, "faults": faults,
+        "read_sizes": read_sizes, "read_api": read_api_name, "late_reader_ms": late_reader_ms, "late_accept_ms": late_accept_ms, "crowd": crowd, "slow_reader_probe": slow_reader_probe, "reader_pause_ms": reader_pause_ms, "faults": faults,
         "writes": plans.iter().map(|p| json!({"conn": p.id, "sizes": p.writes, "gaps_ms": p.gaps, "api": if p.use_stream_api {"TcpStream::write"} else {"Socket::send"}})).collect::<Vec<_>>(),
         "scenario": k, "case": case,
     });
@@ -190,6 +197,9 @@ fn stream_scenario(env: &Env, k: u64, case: u64, rng: &mut rand::rngs::SmallRng,
                             }
                         };
                         let mut handles = vec![];
+                        if late_accept_ms > 0 {
+                            tokio::time::sleep(ms(late_accept_ms)).await;
+                        }
                         for _ in 0..n_conns {
                             let mut stream: TcpStream = match listener.accept().await {
                                 Ok(s) => s,
